@@ -360,6 +360,29 @@ Section Facts.
       rewrite fix_nosig. destruct (fix_final_some o e) as [r Hr]. rewrite Hr. reflexivity.
   Qed.
 
+  (* the same when the one-shot law is only known for the encoding and input at hand *)
+  Lemma dec_single_cond enc force input :
+    (forall e, pick_encoding enc force input true = PEnc e ->
+       dshot e input = match dinit e with None => Err ELookup | Some d => snd (dstep d input true) end) ->
+    snd (dec_step (dec_init dst enc force) input true) = decode dshot input enc force.
+  Proof.
+    intros Hshot. unfold Codec.dec_step, dec_init, decode. cbn [ds_dec ds_enc ds_force ds_buf ds_fixed app].
+    destruct (pick_encoding enc force input true) as [|e|e] eqn:Hp.
+    - exfalso. eapply pick_final_not_buffer. exact Hp.
+    - reflexivity.
+    - rewrite (Hshot e eq_refl). destruct (dinit e) as [d|]; [|reflexivity].
+      unfold Codec.dec_with. cbn [ds_dec ds_enc ds_force ds_buf ds_fixed app].
+      destruct (dstep d input true) as [d' [o|x]]; cbn [snd]; [|reflexivity].
+      rewrite fix_nosig. destruct (fix_final_some o e) as [r Hr]. rewrite Hr. reflexivity.
+  Qed.
+
+  Theorem incdec_chunking_cond_thm enc force chunks last :
+    (forall e, pick_encoding enc force (concat chunks ++ last) true = PEnc e ->
+       dshot e (concat chunks ++ last) =
+       match dinit e with None => Err ELookup | Some d => snd (dstep d (concat chunks ++ last) true) end) ->
+    dec_feed (dec_init dst enc force) chunks last = decode dshot (concat chunks ++ last) enc force.
+  Proof. intros H. rewrite dec_feed_merge. now apply dec_single_cond. Qed.
+
   (* THE decoder theorem: every way of cutting the byte stream gives the one-shot result *)
   Theorem incdec_chunking_thm enc force chunks last :
     dec_feed (dec_init dst enc force) chunks last = decode dshot (concat chunks ++ last) enc force.
